@@ -511,6 +511,32 @@ impl C06 {
 			out.fails.push(Fail::new(format!("c06:query-after-crash:{}", f.sig), format!("{} (fault {})", f.detail, tag)));
 			return;
 		}
+		// a partially written stored-transaction file is REPORTED (Err), never silently treated as absent or as
+		// some other transaction: judge get_stored_tx against the file as it is on disk, parsed independently
+		if let Some(id) = p.slate_id {
+			let path = wal.data_dir().join("saved_txs").join(format!("{}.grintx", id));
+			if let Ok(body) = std::fs::read(&path) {
+				let intact: Option<grin_core::core::Transaction> = std::str::from_utf8(&body)
+					.ok()
+					.filter(|s| s.is_ascii() && !s.is_empty())
+					.and_then(|s| grin_util::from_hex(s).ok())
+					.and_then(|b| grin_core::ser::deserialize(&mut &b[..], grin_core::ser::ProtocolVersion(1), grin_core::ser::DeserializationMode::default()).ok());
+				let got = wal.with(|b| b.get_stored_tx(&format!("{}", id)));
+				match (&intact, &got) {
+					(None, Ok(x)) => out.fail(
+						format!("c06:{}:damaged-stored-tx-not-reported", short),
+						format!("stored tx file of {} bytes is not a complete transaction but get_stored_tx returned Ok({}) (fault {})", body.len(), if x.is_some() { "Some(tx)" } else { "None" }, tag),
+					),
+					(Some(t), Ok(Some(g))) => {
+						if grin_core::ser::ser_vec(t, grin_core::ser::ProtocolVersion(1)).ok() != grin_core::ser::ser_vec(g, grin_core::ser::ProtocolVersion(1)).ok() {
+							out.fail(format!("c06:{}:stored-tx-differs-from-file", short), format!("get_stored_tx returned a transaction different from the file (fault {})", tag));
+						}
+					}
+					(Some(_), Ok(None)) => out.fail(format!("c06:{}:intact-stored-tx-not-returned", short), format!("intact stored tx file not returned (fault {})", tag)),
+					_ => {}
+				}
+			}
+		}
 		let v = snap::view(wal);
 		invariants(&v, wal, out, &short);
 		if !out.fails.is_empty() {
